@@ -733,6 +733,10 @@ func (e *engine) eval(fr *frame, in ssa.Value) *Term {
 		if t.Op == "tuple" && in.Index < len(t.Args) {
 			return t.Args[in.Index]
 		}
+		if in.Index == 1 && t.Op == "lookup" && e.freshEmptyMap(t.Args[0]) {
+			// a comma-ok probe of a map made on this path that nothing has been put into yet
+			return boolTerm(false)
+		}
 		return &Term{Op: "extract", Name: strconv.Itoa(in.Index), Args: []*Term{t}, Typ: in.Type()}
 	case *ssa.MakeInterface:
 		x := e.val(fr, in.X)
@@ -2390,4 +2394,30 @@ func privateModuleIface(m *types.Func) bool {
 	}
 	n, ok := sig.Recv().Type().(*types.Named)
 	return ok && !n.Obj().Exported()
+}
+
+// freshEmptyMap: m is a map made on the current path that has not been written and has not
+// been handed to anything (call argument, store, closure binding) so far.
+func (e *engine) freshEmptyMap(m *Term) bool {
+	if m.Op != "make" || m.Name != "map" {
+		return false
+	}
+	k := m.Key()
+	for i := range e.events {
+		ev := &e.events[i]
+		switch ev.Kind {
+		case EvFact:
+			continue
+		case EvMapUpdate, EvMapDelete:
+			if ev.Place != nil && ev.Place.Key() == k {
+				return false
+			}
+		}
+		for _, t := range []*Term{ev.Call, ev.Fun, ev.Val, ev.Res} {
+			if t != nil && strings.Contains(t.Key(), k) {
+				return false
+			}
+		}
+	}
+	return true
 }
